@@ -111,7 +111,7 @@ ActInsert == \E nm \in Names("insert", "insert_gate"), ci \in CyclesArg(st), o \
 ActInsertCircuit == \E ci \in CyclesArg(st), l \in Locs(st.nq, 2), b \in BOOLEAN : \E s \in Subs(st, RadOf(st.radix, l)) :
              Do([C("insert_circuit") EXCEPT !.ci = ci, !.sub = s, !.loc = l, !.asblock = b])
 ActPop == \E p \in PyPoints(st) : Do([C("pop") EXCEPT !.ci = p[1], !.q = p[2]])
-ActPopLast == Do(C("pop_last"))
+ActPopLast == Room(st, 0) /\ Do(C("pop_last"))
 ActBatchPop == \E S \in SUBSET LiveIds(st) : S # {} /\
              LET pts == [k \in 1..Cardinality(S) |-> OpPointOf(st, SetToSeq(S)[k])]
                  idle == {p \in (0..NC(st) - 1) \X (0..st.nq - 1) : At(st, p[1] + 1, p[2]) = 0} IN
@@ -143,12 +143,12 @@ ActStraighten == \E R \in FoldRegions(st) \cup {<<>>} : Do([C("straighten") EXCE
 ActUnfold == \E id \in BlockIds(st) : \E q \in Range(st.ops[id].loc) : Do([C("unfold") EXCEPT !.ci = RowOf(st, id) - 1, !.q = q])
 ActBatchUnfold == \E S \in SUBSET BlockIds(st) :
              Do([C("batch_unfold") EXCEPT !.points = [k \in 1..Cardinality(S) |-> OpPointOf(st, SetToSeq(S)[k])]])
-ActUnfoldAll == Do(C("unfold_all"))
-ActCompress == Do(C("compress"))
-ActCopy == Do(C("copy"))
-ActClear == Do(C("clear"))
-ActInverse == Do(C("inverse"))
-ActSetParams == Do([C("set_params") EXCEPT !.k = NumParams(st)])
+ActUnfoldAll == Room(st, 0) /\ Do(C("unfold_all"))
+ActCompress == Room(st, 0) /\ Do(C("compress"))
+ActCopy == Room(st, 0) /\ Do(C("copy"))
+ActClear == Room(st, 0) /\ Do(C("clear"))
+ActInverse == Room(st, 0) /\ Do(C("inverse"))
+ActSetParams == Room(st, 0) /\ Do([C("set_params") EXCEPT !.k = NumParams(st)])
 FullSubs(X) == LET rad == X.radix  t1 == Fresh1(X)  t2 == Fresh2(X) IN
                {SubX(rad, b) : b \in {bb \in SubBodies(rad, t1, t2) : Room(X, Len(bb))}}
 ActBecome == \E s \in {SubX(st.radix, b) : b \in SubBodies(st.radix, 1, 2)} : Do([C("become") EXCEPT !.sub = s])
